@@ -2,11 +2,11 @@
 of collective specifications, and the write_start/write_end protocol (C14/ShmemModel.v).
 Tie T3: the real sc_shmem_* / sc_mpi_comm_attach_node_comms run on the simulated MPI (shared windows in one address
 space, Comm_split_type with a configurable node size, contiguous or round robin); an independent oracle judges every
-rank's view of every array, the write_start grants, the communicator grid and the objects left behind; the extracted
-model must predict the same views and grid and the same per-rank sequence of MPI calls."""
+rank's view of every array, the write_start grants, the communicator grid, what sc_mpi_comm_get_node_comms returns
+after detach and the objects left behind; the extracted model must predict the same views and grid, the same per-rank
+sequence of MPI calls of every operation and the same number of live node communicators after attach / after detach."""
 import os, sys, json
 import vlib, mpitrace
-sys.path.insert(0, os.path.join(vlib.TOOLS, "c2g"))
 
 ADVS = list(range(8))
 M = 0xffffffff
@@ -298,11 +298,6 @@ def rank_calls(trace, P):
 
 
 def run(ctx):
-    import genall
-    st = genall.run(["Consts"])
-    for g, s in st.items():
-        if s.startswith("FAILED"):
-            ctx.tie_broken("translator group " + g, s)
     ctx.props()
     hsrc = [os.path.join(vlib.TOOLS, "harness", "c14_harness.c"), os.path.join(vlib.TOOLS, "simmpi", "simmpi.c")]
     v = ctx.variant(mpi="sim", san=True, cflags_extra=("-fno-sanitize=nonnull-attribute",),
@@ -389,7 +384,9 @@ def run(ctx):
     ctx.cov["rule"] = ("runs of the real sc_shmem_* / node communicator code on the simulated MPI: P in %s, every node size dividing P, explicit "
                        "processes_per_node and MPI_Comm_split_type (contiguous nodes), all 4 flavours, 8 integer datatypes, counts 0..5, all 8 "
                        "scheduler adversaries; plus: no communicators attached, unequal node sizes (must not attach), and the round-robin node "
-                       "partition as probe of the recorded finding; distinct = distinct parameter tuples; non-trivial = P > 1" % (
+                       "partition and write rounds back to back (no barrier between the last read and the next write_start) as probes of the "
+                       "recorded findings; after detach: get_node_comms must return NULL/NULL, no communicator/window may be left; "
+                       "distinct = distinct parameter tuples; non-trivial = P > 1" % (
                            "{1,2,3,4,6,8,9,12}" if ctx.quick else "{1..10,12,15,16,18,24}"))
     ctx.notes["distribution"] = dist
     ctx.notes["nocheck_lock_warnings"] = ("simmpi recorded %d [WARNING] items: sc_shmem_write_start_window takes MPI_Win_lock (EXCLUSIVE, MPI_MODE_NOCHECK) "
